@@ -322,6 +322,7 @@ func runC05(w *World, r *Report) {
 
 	c05Detector(w, r)
 	c05OnlyValidatedFlowsLoaded(w, r)
+	c05InternalLimitsAttachedUnderKnownParents(w, r)
 	// R8 shared interpreter safety conditions
 	r.Borrow(w, runC04, map[string]string{"R3": "R8", "R6": "R8"})
 	r.Min("R1", 5)
@@ -684,4 +685,55 @@ func c05OnlyValidatedFlowsLoaded(w *World, r *Report) {
 	if n != 1 {
 		r.Undec("R2", "GetFlows/store", gf.Pos(), "expected one store into the flows map, found %d", n)
 	}
+}
+
+// c05InternalLimitsAttachedUnderKnownParents: when a quota file is split per
+// quota, an internal limit becomes a known parent only after its own parent
+// was found in the same quota's set, so quotaResource.init never looks up a
+// parent node that is not there.
+func c05InternalLimitsAttachedUnderKnownParents(w *World, r *Report) {
+	f := w.Fn(pkgQuota, "QuotaResourceData.ToSingleQuotaResourceDataList")
+	if f == nil {
+		r.Undec("R2", "ToSingleQuotaResourceDataList", token.NoPos, "function not found")
+		return
+	}
+	n, ok := 0, true
+	Instrs(f, func(in ssa.Instruction) {
+		mu, isMU := in.(*ssa.MapUpdate)
+		if !isMU || !strings.HasSuffix(Path(mu.Key), "QuotaConfig.ID") && !strings.Contains(Path(mu.Key), "QuotaConfig.QuotaMetaData.ID") {
+			return
+		}
+		n++
+		found := condsHave(expandConds(CondsOf(mu.Block())), true, func(v ssa.Value) bool {
+			e, isE := v.(*ssa.Extract)
+			if !isE || e.Index != 1 {
+				return false
+			}
+			l, isL := e.Tuple.(*ssa.Lookup)
+			return isL && l.X == mu.Map && strings.HasSuffix(Path(l.Index), ".ParentID")
+		})
+		if !found {
+			ok = false
+		}
+	})
+	apps := 0
+	Instrs(f, func(in ssa.Instruction) {
+		if c, isC := in.(*ssa.Call); isC {
+			if b, isB := c.Call.Value.(*ssa.Builtin); isB && b.Name() == "append" && strings.Contains(c.Type().String(), "ChildQuotaConfig") {
+				apps++
+				found := condsHave(expandConds(CondsOf(c.Block())), true, func(v ssa.Value) bool {
+					e, isE := v.(*ssa.Extract)
+					if !isE || e.Index != 1 {
+						return false
+					}
+					l, isL := e.Tuple.(*ssa.Lookup)
+					return isL && strings.HasSuffix(Path(l.Index), ".ParentID")
+				})
+				if !found {
+					ok = false
+				}
+			}
+		}
+	})
+	r.Check(ok && n == 1 && apps == 1, "R2", "ToSingleQuotaResourceDataList/limit-known-only-under-a-known-parent", f.Pos(), "an internal limit is registered as a possible parent, and attached to the quota, only on the found edge of the lookup of its own ParentID")
 }
